@@ -162,6 +162,36 @@ fn gen_sequence(rng: &mut Rng, violate: bool) -> Vec<Op> {
     ops
 }
 
+/// a session on one random-access file: many PUTs and GETs with record numbers that often follow
+/// one another, then everything is read back after the file was closed and opened again
+fn gen_random_session(rng: &mut Rng) -> Vec<Op> {
+    let h = 1 + rng.below(3) as usize;
+    let nm = 1 + rng.below(3) as usize;
+    let mut ops = vec![Op::Open(nm, h, 3)];
+    let mut last: usize = 1 + rng.below(3) as usize;
+    for _ in 0..(5 + rng.below(10)) {
+        let r = match rng.below(5) {
+            0 | 1 => last + 1,
+            2 => last,
+            _ => 1 + rng.below(5) as usize,
+        }
+        .clamp(1, 6);
+        if rng.chance(3, 5) {
+            ops.push(Op::Put(h, r, rng.pick(&["ab", "record", "12345678", "q", "ONE1TWO2", ""]).to_string()));
+            last = r;
+        } else {
+            ops.push(Op::Get(h, r));
+        }
+    }
+    ops.push(Op::Close(h));
+    let h2 = 1 + rng.below(3) as usize;
+    ops.push(Op::Open(nm, h2, 3));
+    for r in 1..=6 {
+        ops.push(Op::Get(h2, r));
+    }
+    ops
+}
+
 pub fn run(args: &Args) {
     let mut rng = Rng::new(args.seed);
     let mut sum = Summary::new();
@@ -169,7 +199,12 @@ pub fn run(args: &Args) {
     let mut evaluations = 0usize;
     let n = if args.thorough() { 5000 } else { 600 };
     for k in 0..n {
-        let ops = gen_sequence(&mut rng, k % 2 == 1);
+        // the files of this program must not exist yet (a random-access file keeps its records when reopened)
+        for n in 1..=3 {
+            let _ = std::fs::remove_file(format!("P{}R{}", k, n));
+            let _ = std::fs::remove_file(format!("P{}T{}", k, n));
+        }
+        let ops = if k % 4 == 2 { gen_random_session(&mut rng) } else { gen_sequence(&mut rng, k % 2 == 1) };
         if ops.is_empty() {
             continue;
         }
@@ -304,6 +339,6 @@ pub fn run(args: &Args) {
     sum.write(
         &args.out,
         evaluations,
-        "seeded sequences of 4-18 operations over handles 1-3 and three text-file and three random-file names private to each program: OPEN FOR INPUT / OUTPUT / APPEND / RANDOM (LEN = 8, FIELD), PRINT #, LINE INPUT #, EOF, CLOSE #n, CLOSE, KILL, LSET+PUT, GET; generated mostly valid (a name open at most once), half of them with one protocol-violating operation appended (busy handle, missing file, closed handle, wrong mode, read past the end). The program prints a marker after every operation and stops at its first error; lines read, EOF values, records read and the error code are compared with Files.frun in Coq. Non-trivial = distinct operation sequences.",
+        "seeded sequences of 4-18 operations over handles 1-3 and three text-file and three random-file names private to each program: OPEN FOR INPUT / OUTPUT / APPEND / RANDOM (LEN = 8, FIELD), PRINT #, LINE INPUT #, EOF, CLOSE #n, CLOSE, KILL, LSET+PUT, GET; generated mostly valid (a name open at most once), half of them with one protocol-violating operation appended (busy handle, missing file, closed handle, wrong mode, read past the end); every fourth program is a session on one random-access file (5-14 PUTs and GETs whose record numbers often follow one another, close, reopen, all records read back). The program prints a marker after every operation and stops at its first error; lines read, EOF values, records read and the error code are compared with Files.frun in Coq. Non-trivial = distinct operation sequences.",
     );
 }
